@@ -140,6 +140,8 @@ func init() {
 			}
 			return Slice{Nil: true}
 		},
+		"endsWithNewline": pEndsWithNewline,
+		"fragmentOf":      pFragmentOf,
 		"blobPartU64": func(in *Interp, fn *ssa.Function, a []Value) Value {
 			if it, ok := a[0].(Iface); ok {
 				if t, ok := it.V.(Term); ok && t.S == SBV {
@@ -1056,4 +1058,43 @@ func (in *Interp) niceStrings() string {
 		return ""
 	}
 	return "(and true " + strings.Join(cs, " ") + ")"
+}
+
+// endsWithNewline(p): is the last byte of p a newline? Decided structurally for the byte strings the audit path
+// produces (Encoder.Encode lines, fragments of them, concatenations, concrete bytes); anything else is unmodelled.
+func pEndsWithNewline(in *Interp, fn *ssa.Function, a []Value) Value {
+	s, ok := a[0].(Slice)
+	if !ok || s.Nil {
+		return mkBool(false)
+	}
+	if s.Seq != nil && s.Seq.Blob != nil {
+		b := s.Seq.Blob
+		switch b.Kind {
+		case "JSON":
+			return mkBool(b.Line)
+		case "FRAG":
+			return mkBool(false) // a proper prefix of a line: the newline is its last byte only
+		case "CAT":
+			if len(b.Parts) > 0 {
+				return pEndsWithNewline(in, fn, []Value{b.Parts[len(b.Parts)-1]})
+			}
+		}
+		panic(abort("endsWithNewline: blob kind " + b.Kind))
+	}
+	if s.Seq != nil {
+		return strHasSuffix(s.Seq.T, mkStr("\n"))
+	}
+	if len(s.A) == 0 {
+		return mkBool(false)
+	}
+	if t, ok := s.A[len(s.A)-1].(Term); ok {
+		return tEq(bvConv(t, 8, false), mkBV(8, 10))
+	}
+	panic(abort("endsWithNewline: unexpected element"))
+}
+
+// fragmentOf(p): a non-empty proper prefix of p (what a short write leaves in the file).
+func pFragmentOf(in *Interp, fn *ssa.Function, a []Value) Value {
+	b := &Blob{Kind: "FRAG", Parts: []Value{a[0]}, ID: in.newID()}
+	return in.blobSlice(b)
 }
